@@ -1,5 +1,5 @@
 """C15 — references between entries resolve to the referenced entry's final position."""
-import random
+import random, re
 from . import common as C, dirfam as D
 
 PID = "C15"
@@ -25,13 +25,58 @@ def gen_cases(seed, tier):
                  "chain": (j + 1) % nent, "first": 0, "last": nent - 1}[shape]
             c["entries"].append(dict(variant=None, values={"key": ("u", keys[j]), "ref": ("r", t), "ref2": ("r", rng.randrange(nent))}))
         cases.append(c)
+    # a sort key that is itself a reference (a tree sorted on (parent, id)): the store is re-sorted until stable and the
+    # positions must be refreshed after every pass. Judged relationally (no predicted order): see refsort_oracle
+    for k, nent in enumerate([4, 9, 40, 300] if tier == "quick" else [4, 4, 9, 9, 40, 40, 300, 300, 1500]):
+        depth, parent = [0], [0]                           # node 0 is the root and its own parent
+        for j in range(1, nent):
+            p = rng.choice([q for q in range(j) if depth[q] < 6])
+            parent.append(p); depth.append(depth[p] + 1)
+        ids = rng.sample(range(nent * 3 + 5), nent)
+        order = list(range(nent)); rng.shuffle(order)      # insertion order
+        where = {node: pos for pos, node in enumerate(order)}
+        c = dict(id="t%d" % k, stores=["plain"], variant_order=[], indexes=[], finds=[], sort=["parent", "id"], refsort=True,
+                 props=[dict(variant=None, kind="u", name="id"), dict(variant=None, kind="u", name="parent")],
+                 entries=[dict(variant=None, values={"id": ("u", ids[node]), "parent": ("r", where[parent[node]])}) for node in order])
+        cases.append(c)
     return cases
+
+
+def refsort_oracle(c, lines, bounds):
+    """relational oracle for a store sorted on a reference: every stored reference is the final position of the referenced
+    entry, the handles report the final positions, and the store is in non-decreasing (parent, id) order as read"""
+    ents = []
+    for l in lines:
+        m = re.match(r"entry \S+ (\d+) v=- id=u(\d+) parent=u(\d+)$", l)
+        if m:
+            ents.append((int(m.group(2)), int(m.group(3))))
+    n = len(c["entries"])
+    if len(ents) != n:
+        return "%d entries read back, %d written" % (len(ents), n)
+    pos_of_id = {i: p for p, (i, _) in enumerate(ents)}
+    if len(pos_of_id) != n:
+        return "an id was duplicated or lost"
+    for j, e in enumerate(c["entries"]):
+        my_id, target = e["values"]["id"][1], e["values"]["parent"][1]
+        tid = c["entries"][target]["values"]["id"][1]
+        if my_id not in pos_of_id or tid not in pos_of_id:
+            return "entry id=%d or its target id=%d was not read back" % (my_id, tid)
+        stored = ents[pos_of_id[my_id]][1]
+        if stored != pos_of_id[tid]:
+            return "entry id=%d: stored reference is %d but the referenced entry (id=%d) ended at position %d" % (my_id, stored, tid, pos_of_id[tid])
+        if bounds is not None and (j >= len(bounds) or bounds[j] != pos_of_id[my_id]):
+            return "the handle of entry id=%d reports %s, its final position is %d" % (my_id, bounds[j] if j < len(bounds) else None, pos_of_id[my_id])
+    keys = [(p, i) for i, p in ents]
+    if keys != sorted(keys):
+        k = next(x for x in range(1, n) if keys[x - 1] > keys[x])
+        return "the store is not sorted on (parent, id): position %d holds %s before %s" % (k - 1, keys[k - 1], keys[k])
+    return None
 
 
 def run(tier, seed, replay=None):
     res = C.Result(PID, tier, seed)
     res.assumptions = [
-        "sort keys are not reference-valued (otherwise the comparator would change during the sort)",
+        "stores sorted on a reference-valued key (trees sorted on (parent, id)) are judged relationally: stored reference = final position of the target, handles = final positions, store sorted as read; the order itself is not predicted",
         "rayon's parallel sort / parallel index assignment are modelled as an arbitrary permutation followed by set_idx; sizes crossing rayon's thresholds are run on the real code",
     ]
     if not C.proof_layer(res, PID, THEORY):
@@ -46,6 +91,20 @@ def run(tier, seed, replay=None):
         r = R.get(c["id"], ["<no output>"])
         m = M.get(c["id"], [])
         n = len(c["entries"])
+        if c.get("refsort") or (c.get("sort") and c["sort"][0] == "parent"):
+            rl = D.canon_rust(r)
+            b = [l for l in r if l.startswith("bounds ")]
+            bad = "creation failed: %s" % (r[:2],) if "create OK" not in r else \
+                refsort_oracle(c, rl, [int(x) for x in b[0].split(" ", 1)[1].split(",")] if b else [])
+            if bad:
+                res.violation("C15: %s (case %s)" % (bad, c["id"]), D.case_text(c, seed) + "# " + bad + "\n")
+            mm = D.canon_model(m)
+            if [l for l in mm if l.startswith("entry")] != [l for l in rl if l.startswith("entry")]:
+                dis += 1
+                if not bad:
+                    res.violation("independent decoder disagrees with the reader on %s" % c["id"], D.case_text(c, seed), found_input=False)
+            nontrivial.add((c["id"], n))
+            continue
         order = sorted(range(n), key=lambda i: D.sort_key(c, c["entries"][i])) if c.get("sort") else list(range(n))
         final_pos = {e: p for p, e in enumerate(order)}
         exp = D.expected_dump(c, order=order, final_pos=final_pos)
